@@ -6,10 +6,10 @@ LEVEL = "other"
 EXHAUSTIVE = False
 EXPLANATION = ("Termination argument per analysed parser, for inputs of any length: the cursor never moves at end of input (P1), "
                "every loop cycle consumes (P2), every recursive cycle of rule functions consumes (P3); in the skeleton the None arm "
-               "of tokens.get(pos) saturates the cursor at end_of_input and leaves the skip loop (S7). Panic freedom of the skeleton's "
+               "of tokens.get(pos) saturates the cursor at end_of_input and leaves the skip loop (S7). G-F2: no error node is opened inside a revocable ordered-choice attempt (its stale mark makes close_error_node index out of bounds after the truncation). Panic freedom of the skeleton's "
                "indexing and recursion depth are not decided.")
 
 
 def run(ctx, rep):
     common.s_rules(ctx, rep, [lambda i, r, o: skel.s7_saturate(i, r)])
-    common.g_rules(ctx, rep, ["P1", "P2", "P3"], floors={"P1": 500, "P2": 100, "P3": 300})
+    common.g_rules(ctx, rep, ["P1", "P2", "P3", "F2"], floors={"P1": 500, "P2": 100, "P3": 300})
